@@ -6,7 +6,7 @@ import ast
 from ..lin import Lin, Infeasible
 from ..avals import *   # noqa
 from ..avals import value_tags
-from ..decide import Runs, need_ge0, need_eq0, definite, soft, iterations
+from ..decide import benign_unknown, Runs, need_ge0, need_eq0, definite, soft, iterations
 from ..report import Ob, PROVED, REFUTED, UNDECIDED, func_where, ASSUMPTIONS, Failure
 from ..model import norm_text, AnalysisError
 from .. import seqops
@@ -248,7 +248,7 @@ def check(prog, res, tier):
         return fails
     res.add(runs_d.judge('C12.d', 'packed strings are assigned to the PDS carrier elements in ascending element order', func_where(dfi),
                          'de_field_key = de_pds_fields.pop()', chk_carriers, rule='C12.d.carriers',
-                         unknown_ok=lambda u: True))
+                         unknown_ok=benign_unknown))
 
     # ---- C12.b writer/reader agreement
     du = DecodeUnits(prog, res)
